@@ -2,7 +2,7 @@
    Statements only; each closed by [exact] of a lemma from Proofs/. *)
 From Coq Require Import NArith Bool List.
 Import ListNotations.
-From XetModel Require Import Gen.HashConsts Model.Blake3 Model.Merkle Proofs.HashProofs.
+From XetModel Require Import Gen.HashConsts Model.Blake3 Model.Merkle Proofs.HashProofs Proofs.Base64Proofs.
 Open Scope N_scope.
 
 (* the validators' aggregation (MerkleMemDB add_file + finalize, with its CAS staging) returns the
@@ -57,7 +57,16 @@ Proof. vm_compute. reflexivity. Qed.
 Example C06_streaming_nonvacuous : exists hd acc, hashed_write false [([1; 2; 3], Some 1); ([4], None); ([5; 6], Some 2)] [] [] = (hd, acc) /\ acc = [1; 5; 6].
 Proof. eexists. eexists. split; reflexivity. Qed.
 
+(* the URL-safe base64 form of a hash (file and shard names in URLs, cache directory names) decodes back to the hash,
+   for every 32-byte hash; hence it is injective *)
+Theorem C06_base64_roundtrip : forall h, length h = 32%nat -> Forall is_byte h -> from_base64 (base64 h) = Some h.
+Proof. exact from_base64_base64. Qed.
+Theorem C06_base64_injective : forall a b, Forall is_byte a -> Forall is_byte b ->
+  b64enc (S (length a)) a = b64enc (S (length b)) b -> a = b.
+Proof. exact b64enc_inj. Qed.
+
 Print Assumptions C06_validator_eq_uploader.
+Print Assumptions C06_base64_roundtrip.
 Print Assumptions C06_single_chunk_root_ignores_len.
 Print Assumptions C06_streaming_eq_oneshot.
 Print Assumptions C06_hex_roundtrip.
